@@ -1054,7 +1054,11 @@ impl AccessControlsWriteTransaction<'_> {
     }
 
     pub fn commit(self) -> Result<(), OperationError> {
+        #[cfg(feature = "verif-hooks")]
+        let _ = crate::verif_hooks::point("acp.c.start");
         self.inner.commit();
+        #[cfg(feature = "verif-hooks")]
+        let _ = crate::verif_hooks::point("acp.c.done");
 
         Ok(())
     }
